@@ -133,8 +133,11 @@ fn reference_kinds(thorough: bool) -> Vec<Subject> {
         c.faulty = faulty;
         decls.push(c);
         decls.push(d(filler_fb.0, filler_fb.1, filler_fb.2));
-        if thorough && decls.len() < 5 {
+        if decls.len() < 5 {
             decls.push(d(filler_ty.0, filler_ty.1, filler_ty.2));
+        }
+        if thorough && decls.len() < 6 {
+            decls.push(d("Extra", "program", "PROGRAM Extra VAR n : INT ; END_VAR n := 2 ; END_PROGRAM"));
         }
         let name: &'static str = Box::leak(format!("{}{}", if faulty { "ref/" } else { "ref/valid/" }, label).into_boxed_str());
         out.push(Subject { name, decls, single_fault: faulty });
@@ -266,9 +269,10 @@ pub fn run_analyze(s: &Subject, a: &Arrangement) -> Result<Res, String> {
     }
 }
 
-pub fn arrangements(n: usize, thorough: bool) -> (Vec<Arrangement>, &'static str) {
+pub fn arrangements(n: usize, deep: bool) -> (Vec<Arrangement>, &'static str) {
+    let thorough = true;
     let mut out = vec![];
-    if n <= 5 {
+    if n <= 5 || (deep && n <= 6) {
         for perm in permutations(n) {
             for files in set_partitions(n, 3) {
                 let nf = files.iter().max().unwrap() + 1;
@@ -421,7 +425,7 @@ pub fn run(ctx: &mut Ctx) {
     ctx.extra.insert("sets_whose_verdict_differs_from_their_name (order independence is still checked on them)".into(), json!(unexpected));
 
     // conformance of the seam: the real binary (random hash order) x N per multi-file set must give a result that one of the enumerated file orders gives
-    let reps = if thorough { 20 } else { 5 };
+    let reps = if thorough { 20 } else { 10 };
     let scratch = Scratch::new("c06");
     let mut jobs = vec![];
     for (si, s) in subs.iter().enumerate() {
